@@ -125,6 +125,21 @@ def run(world, rep, tier, only=None):
             n_sites += 1
             key = (fn.file, fn.name, nm)
             ok, why = G.gated(fn, n, stop=stop)
+            if not ok and not ((fn.file, fn.name, "*") in EXEMPT or key in EXEMPT):
+                # a file-local helper cut out of a listed function: the listing of its only caller holds for it
+                hf, hops = fn, 0
+                while hops < 2 and hf.static:
+                    cfs = {cf.key: cf for (cf, _cn) in G.call_sites(hf)}
+                    if len(cfs) != 1:
+                        break
+                    hf = list(cfs.values())[0]
+                    hops += 1
+                    k2 = (hf.file, hf.name, nm)
+                    if k2 in EXEMPT or (hf.file, hf.name, "*") in EXEMPT:
+                        key = k2 if k2 in EXEMPT else (hf.file, hf.name, "*")
+                        EXEMPT.setdefault((fn.file, fn.name, nm), EXEMPT[key])
+                        key = (fn.file, fn.name, nm)
+                        break
             if not ok and ((fn.file, fn.name, "*") in EXEMPT or key in EXEMPT):
                 # exempted paths must really be behind the read-only test
                 reason, need_ro = EXEMPT.get(key) or EXEMPT[(fn.file, fn.name, "*")]
